@@ -56,4 +56,5 @@ def main():
                 open("/verif/SENSITIVITY.log", "a").write(json.dumps(rec) + "\n")
         finally:
             subprocess.run(["git", "-C", "/repo", "checkout", "--", "."])
+            subprocess.run(["git", "-C", "/verif", "checkout", "--", "evidence"])  # evidence written against a changed tree is not kept
 main()
